@@ -471,6 +471,18 @@ def build():
             ensures={"value": ("result is ev(CURSRC, KEY)" if q.endswith("__call__") else "result.call_id[1] is KEY")},
         ))
 
+    # forced execution: the value written is only meaningful under the code recorded in the store, so call() must leave
+    # "code on disk is current" established like every other entry point (else entries of an unrecorded code are served
+    # later under different code)
+    p.add(Contract(
+        MEM, "MemorizedFunc.call", props=["C12", "C02", "C05"], ghost=GHOST, globals=glob, setup=setup,
+        params=dict(self=mfunc(), args=(), kwargs=PyDict({})),
+        requires=PRE,
+        modifies=["ghost:CODESTATE", "ghost:DISKSRC", "ghost:DISKLINE", "ghost:TABLE_HIT", "ghost:HAS", "ghost:VAL", "ghost:EXECS"],
+        ensures={"SI": "SI()", "TI": "TI()", "executes_once": "EXECS == old(EXECS) + 1", "returns_the_functions_value": "result[0] is ev(CURSRC, KEY)",
+                 "code_on_disk_is_current": "CODESTATE == 2 and DISKSRC is CURSRC"},
+    ))
+
     # ------------------------------------------------------------------ MemorizedResult.get
     p.add(Contract(
         MEM, "MemorizedResult.get", props=["C02"], ghost=GHOST, globals=glob, setup=setup,
@@ -498,17 +510,42 @@ def build():
     fglob["get_func_code"] = lambda interp: _Fn(lambda i, a, k: (i.ctx.events.append(("get_func_code",)), (i.ctx.ghost["CURSRC"], None, i.ctx.ghost["CURLINE"]))[1])
     p.models["builtin:id"] = lambda i, a, k: i.ctx.ghost["CODEID"] if "CODEID" in i.ctx.ghost else INT.fresh(i.ctx, "id")
     p.spec_funcs["n_events"] = lambda interp, name: sum(1 for e in interp.ctx.events if e[0] == name)
+    # Representation invariant of the cached source:  _func_code_info, when present, is the source of the code object whose id is
+    # _func_code_id (ghost INFO_FOR = the id it was computed for).  Assumption: within one MemorizedFunc the id of the live code
+    # object identifies it (CPython may reuse the id of a collected code object).
+    def fci_self(interp):
+        ctx = interp.ctx
+        g = ctx.ghost
+        have = ctx.choose(2, "cached-info-present")
+        o = mfunc(func=OpaqueOf("userfunc", __name__=STR, __code__=OpaqueOf("code")), _func_code_id=Opt(INT),
+                  _func_code_info=None).fresh(ctx, "self")
+        if have:
+            o.fields["_func_code_info"] = (g["CACHEDSRC"], None, g["CURLINE"])
+        return o
+
+    p.spec_funcs["info_for_now"] = lambda interp: interp.ctx.ghost["CODEID"] if any(e[0] == "get_func_code" for e in interp.ctx.events) else interp.ctx.ghost["INFO_FOR"]
     p.add(Contract(
-        MEM, "MemorizedFunc.func_code_info", props=["C12"], ghost=dict(CURSRC=Src, CURLINE=INT), globals=fglob, setup=fci_setup,
-        params=dict(self=mfunc(func=OpaqueOf("userfunc", __name__=STR, __code__=OpaqueOf("code")),
-                               _func_code_id=Opt(INT), _func_code_info=OneOf(None, OpaqueOf("cachedinfo")))),
+        MEM, "MemorizedFunc.func_code_info", props=["C12"], ghost=dict(CURSRC=Src, CURLINE=INT, CACHEDSRC=Src, INFO_FOR=INT), globals=fglob, setup=fci_setup,
+        params=dict(self=fci_self),
+        requires=["self._func_code_info is None or (self._func_code_id is not None and self._func_code_id == INFO_FOR)",
+                  "implies(INFO_FOR == CODEID, CACHEDSRC is CURSRC)"],
         ensures={
-            "refreshed_when_code_object_swapped": "implies(old(self._func_code_id) is not None and old(self._func_code_id) != CODEID, "
-                                                  "n_events('get_func_code') == 1 and result[0] is CURSRC)",
-            "fresh_on_first_use": "implies(old(self._func_code_info) is None, result[0] is CURSRC)",
+            "always_the_source_of_the_current_code_object": "result[0] is CURSRC",
+            "RI_cached_info_belongs_to_the_recorded_code_id": "self._func_code_info is not None and self._func_code_id is not None and self._func_code_id == info_for_now()",
             "remembered": "same(result, self._func_code_info)",
         },
     ))
+    # the in-process table of function hashes is consulted before the store: its key must tell stores apart, else a table entry
+    # written through one Memory location validates a stale code file in another one
+    p.add(Contract(
+        MEM, "MemorizedFunc._hash_func", props=["C12"], globals=fglob, setup=fci_setup,
+        params=dict(self=mfunc(func=OpaqueOf("userfunc", __name__=STR, __code__=OpaqueOf("code")), store_backend=OpaqueOf("storebackend", location=OpaqueOf("location")))),
+        ensures={"key_tells_code_objects_apart": "any_is(result, hash_of(self.func.__code__))",
+                 "key_tells_stores_apart": "any_is(result, self.store_backend.location)"},
+    ))
+    p.models["builtin:hash"] = lambda i, a, k: Opaque("hashof", None, of=a[0]) if not isinstance(a[0], (int, str, bytes, tuple)) else hash(a[0])
+    p.spec_funcs["hash_of"] = lambda interp, o: o
+    p.spec_funcs["any_is"] = lambda interp, tup, x: isinstance(tup, tuple) and any(e is x or (isinstance(e, Opaque) and e.tag == "hashof" and e.attrs.get("of") is x) for e in tup)
     p.spec_funcs["dumped_key"] = lambda interp: key_of([e for e in interp.ctx.events if e[0] == "dump_item"][0][1])
     p.spec_funcs["same"] = lambda interp, a, b: a is b or (isinstance(a, tuple) and isinstance(b, tuple) and all(x is y or ops.identical(x, y) is True for x, y in zip(a, b)))
     return p
